@@ -6,7 +6,13 @@ the (semantically equal) input documents and in the order in which os.listdir/os
 child), through four entry points (configuration factory, WorkflowGraph.graphFromPackage replicated and PRIMITIVE,
 Experiment.experimentFromPackage).  Each child prints a canonical dump.
 
+FlowIR / DOSINI packages may contain repeating components (repeatInterval) whose working directory holds the archived
+streams/<i>.stdout files of several repetitions, consumed through `<component>:output`; the experiment dump carries,
+per component, what every reference resolves to, the stdout path and the command line with references substituted.
+
 Oracle:  (B) all dumps of one (package, options, entry point) are equal;
+         (S) a `:output` reference to a repeating component resolves to the same file, and its consumer gets the same
+             memoization hash, in children that were shown the streams directory in different orders;
          (A) the user variables a child reports equal an independent fold of the given files (last wins) and no
              resolved configuration carries the value of a losing file.
 """
@@ -141,6 +147,58 @@ def loser_tokens(case: Dict[str, Any]):
     return out
 
 
+def judge_stream_refs(c: vlib.Check, case: Dict[str, Any], oks: List[Any], per_child: List[Dict[str, Any]]):
+    """Clause S. `oks`: [(per-child record, experiment dump)] of the children that loaded the package.  For every
+    `<repeating component>:output` reference (known by construction) compare, across children, the file the reference
+    resolves to, the value substituted and the strong memoization hash of the consumer.  Which stream is the right one
+    is NOT judged (the statement only says: the same in every process, whatever the listing order)."""
+    streams = case.get("streams") or {}
+    for consumer, ref, producer in case.get("stream_refs") or []:
+        first, count = streams[producer]
+        seen = []
+        for pc, d in oks:
+            comp = (d.get("components") or {}).get(consumer) or {}
+            row = next((x for x in (comp.get("resolved") or []) if x and x[0] == ref), None)
+            if row is None:
+                continue
+            suffix = "/%s/streams/*.stdout" % producer.replace(".", "/", 1)  # .../stages/stage<i>/<name>/streams
+            orders = [names for pat, names in ((pc.get("info") or {}).get("stream_listings") or []) if pat.endswith(suffix)]
+            seen.append({"child": pc["child"], "hashseed": pc["hashseed"], "location": row[1], "value": row[2],
+                         "hash": comp.get("hash"), "arguments": comp.get("resolved_arguments"),
+                         "listing_orders_shown": orders[:3]})
+        if len(seen) < 2:
+            continue
+        c.count("stream_output_refs_compared")
+        c.count("stream_output_refs_compared_children", len(seen))
+        if count >= 2 and len({json.dumps(x["listing_orders_shown"][:1]) for x in seen}) >= 2:
+            c.count("stream_dirs_listed_in_2plus_orders")
+        if first + count - 1 >= 10:
+            c.count("stream_output_refs_with_two_digit_indices")
+        if all(isinstance(x["location"], str) and "/streams/" in x["location"] for x in seen):
+            c.count("stream_output_refs_resolved_to_an_archived_stream")
+        if all(x["hash"] for x in seen):
+            c.count("stream_consumer_strong_hashes_compared")
+        for what, label in (("location", "resolves to different files"), ("value", "is substituted by different values"),
+                            ("hash", "gives its consumer different memoization hashes")):
+            vals = sorted({json.dumps(x[what]) for x in seen})
+            if len(vals) > 1:
+                a = seen[0]
+                b = next(x for x in seen if x[what] != a[what])
+                c.violation(
+                    "reference %s of %s (stdout of the repeating component %s, archived streams %d..%d) %s in "
+                    "processes that were shown the streams directory in different orders: %s (listing %s) vs %s "
+                    "(listing %s)" % (ref, consumer, producer, first, first + count - 1, label,
+                                      json.dumps(a[what])[:120], json.dumps(a["listing_orders_shown"][:1])[:120],
+                                      json.dumps(b[what])[:120], json.dumps(b["listing_orders_shown"][:1])[:120]),
+                    {"case": case, "entry": "experiment", "consumer": consumer, "reference": ref, "producer": producer,
+                     "streams": [first, count], "differs": what, "per_child": seen,
+                     "hashseeds": [p["hashseed"] for p in per_child],
+                     "child_seeds": [p["child_seed"] for p in per_child]})
+                break
+        else:
+            c.count("stream_output_refs_equal_in_all_children")
+
+
 def judge_case(c: vlib.Check, case: Dict[str, Any], per_child: List[Dict[str, Any]]):
     """per_child: [{'child':i,'hashseed':s,'dumps':{entry:dump}}]"""
     expected = canon_uservars(gen.expected_user_variables(case))
@@ -220,6 +278,8 @@ def judge_case(c: vlib.Check, case: Dict[str, Any], per_child: List[Dict[str, An
             c.count("groups_compared")
             nontrivial = True
             ref_pc, ref = oks[0]
+            if entry == "experiment":
+                judge_stream_refs(c, case, oks, per_child)  # clause S first: its message names the mechanism
             ref_cmp = {k: v for k, v in ref.items() if k not in INFO_KEYS}
             if len({json.dumps(d_.get("info_stored_component_order")) for _, d_ in oks}) > 1:
                 c.count("info_groups_where_stored_component_list_order_differs")
@@ -252,6 +312,8 @@ def judge_case(c: vlib.Check, case: Dict[str, Any], per_child: List[Dict[str, An
             if case["kind"] == "dsl" and len((ref.get("environments_defined") or {}).get("default", {})) >= 1:
                 c.count("dsl_groups_with_generated_environments")
             if entry == "experiment":
+                c.count("reference_resolutions_compared",
+                        sum(len(cc.get("resolved") or []) for cc in (ref.get("components") or {}).values()))
                 hs = [cc.get("hash") for cc in (ref.get("components") or {}).values()]
                 c.count("strong_hashes_compared", sum(1 for h in hs if h))
                 c.count("fuzzy_hashes_compared", sum(1 for cc in (ref.get("components") or {}).values() if cc.get("hash_fuzzy")))
@@ -337,7 +399,8 @@ def run(c: vlib.Check, cases: List[Dict[str, Any]], k: int, batch_size: int, fix
         for case in bc:
             case = restore_int_keys(json.loads(json.dumps(case)))
             per_child = [{"child": r_["child"], "hashseed": r_["hashseed"], "child_seed": r_["child_seed"],
-                          "dumps": r_["dumps"].get(str(case["index"]), {})} for r_ in recs]
+                          "dumps": r_["dumps"].get(str(case["index"]), {}),
+                          "info": r_["dumps"].get(str(case["index"]), {}).get("_info") or {}} for r_ in recs]
             judge_case(c, case, per_child)
 
 
@@ -345,7 +408,8 @@ def main():
     c = vlib.Check(
         "C15", "exploration",
         rule="seeded FlowIR / DSL 2.0 / DOSINI packages x option sets (platform, 0-4 user variable files in a given "
-             "order, a path possibly given twice), each loaded through 4 entry points (incl. the primitive graph; FlowIR/DOSINI components may have names ending in digits) by K real child processes with "
+             "order, a path possibly given twice; FlowIR/DOSINI: repeating components with 2-5 archived stdout streams "
+             "consumed through :output), each loaded through 4 entry points (incl. the primitive graph; FlowIR/DOSINI components may have names ending in digits) by K real child processes with "
              "distinct PYTHONHASHSEED, re-shuffled mapping key order of every input document and shuffled "
              "listdir/scandir/glob answers; a package counts as non-trivial when >= 2 children with different string "
              "hash functions produced a dump for it; distinct = distinct structural classes (kind, #stages, "
@@ -360,6 +424,9 @@ def main():
             "Dumps are compared after replacing the child's scratch root and the instance timestamp by placeholders; "
             "for a load that raises only the exception class is compared (messages are not part of the statement).",
             "Listing order is varied by a shim around os.listdir/os.scandir/glob inside the child, not by the file system.",
+            "Archived streams are written by the harness the way RepeatingEngine.archive_stream leaves them (at most 5 "
+            "contiguous indices, stdout+stderr); WHICH stream a :output reference picks is not judged, only that it "
+            "is the same one (and the same consumer hash) under every listing order.",
             "Dynamic check: held on the packages and hash seeds explored, not a proof.",
         ])
     rp = vlib.load_replay(sys.argv)
@@ -392,6 +459,10 @@ def main():
     c.floor("fuzzy_hashes_compared", n)
     c.floor("strong_hashes_compared", n)
     c.floor("listing_calls_reordered", n * p["children"])
+    c.floor("stream_output_refs_compared", n // 4)
+    c.floor("stream_output_refs_resolved_to_an_archived_stream", n // 4)
+    c.floor("stream_consumer_strong_hashes_compared", n // 4)
+    c.floor("stream_dirs_listed_in_2plus_orders", n // 4)
     c.floor("distinct_string_hash_functions_observed", (n // p["batch"]) * p["children"])
     sys.exit(c.finish())
 
